@@ -217,6 +217,107 @@ def dash (ops : List String) : String :=
     | some toks => String.intercalate " " toks
     | none => "hang"
 
+/-! ### contact (contact points):  c<t>.<name>=<v>   u<t>.<id>=<name>:<v>   d<t>.<id>   l<t>   R
+     v = hex of a comma-separated list: pager = v, slack = its non-empty parts -/
+def hexStr? (s : String) : Option String :=
+  if isHexLower s then (hexBytes? s).map (fun bs => String.ofList (bs.map Char.ofNat)) else none
+
+/-- the non-empty comma-separated parts of the value, as hex strings (bytes, so that UTF-8 needs no decoding) -/
+def slackParts (v : String) : Option (List String) :=
+  (hexBytes? v).map (fun bs =>
+    let rec go (bs : List Nat) (cur : List Nat) (acc : List (List Nat)) : List (List Nat) :=
+      match bs with
+      | [] => (cur.reverse :: acc).reverse
+      | b :: r => if b = 44 then go r [] (cur.reverse :: acc) else go r (b :: cur) acc
+    ((go bs [] []).filter (fun p => !p.isEmpty)).map bytesHex)
+
+def contactOp? (s : String) : Option Contact.Op :=
+  if s = "R" then some .restart else
+  match s.toList with
+  | 'l' :: c :: [] => (tenant? c).map .list
+  | o :: r =>
+    match splitTenant (String.ofList r) with
+    | none => none
+    | some (t, rest) =>
+      if o = 'c' then
+        match split1 rest '=' with
+        | some (k, v) => match key? k, isHexLower v, slackParts v with
+          | some k, true, some sl => some (.create t k v sl)
+          | _, _, _ => none
+        | none => none
+      else if o = 'u' then
+        match split1 rest '=' with
+        | some (id, nv) => match dec? id, split1 nv ':' with
+          | some id, some (k, v) => match key? k, isHexLower v, slackParts v with
+            | some k, true, some sl => if id = 0 then none else some (.update t id k v sl)
+            | _, _, _ => none
+          | _, _ => none
+        | none => none
+      else if o = 'd' then
+        match dec? rest with
+        | some id => if id = 0 then none else some (.delete t id)
+        | none => none
+      else none
+  | [] => none
+
+def contactTok : Contact.Out → String
+  | .res r => showRes r
+  | .created id => s!"ok:{id}"
+  | .notCreated => "ok:-"
+  | .saveFailed => "fail"
+  | .rows l => "[" ++ String.intercalate "," (sortStrs (l.map (fun e =>
+      s!"{e.1}/{showKey e.2.name}/{e.2.pager}/{String.intercalate "+" (sortStrs e.2.slack)}"))) ++ "]"
+  | .restarted => "R"
+
+def contact (ops : List String) : String :=
+  match ops.mapM contactOp? with
+  | none => "bad-op"
+  | some ops =>
+    let rec go (st : Contact.St) (ops : List Contact.Op) (acc : List String) : List String :=
+      match ops with
+      | [] => acc.reverse
+      | op :: r => let (st1, o) := Contact.step st op; go st1 r (contactTok o :: acc)
+    String.intercalate " " (go Contact.init ops [])
+
+/-! ### lookup (lookup files; one name space, tenant digit must be 0):
+     c0.<name>=<content> upload   u0.<name>=<content> upload with overwrite=true   (C / U: the uploaded file is a .csv.gz)
+     g0.<name> get   d0.<name> delete   l0 list   R -/
+def lookupOp? (s : String) : Option Lookup.Op :=
+  if s = "R" then some .restart else
+  if s = "l0" then some .list else
+  match s.toList with
+  | o :: '0' :: '.' :: r =>
+    let rest := String.ofList r
+    if o = 'c' || o = 'u' || o = 'C' || o = 'U' then
+      match split1 rest '=' with
+      | some (k, v) => match key? k, isHexLower v with
+        | some k, true => some (.upload k v (o = 'u' || o = 'U') (o = 'C' || o = 'U'))
+        | _, _ => none
+      | none => none
+    else if o = 'g' || o = 'd' then
+      match key? rest with
+      | some k => if !Alias.validIndex k then none else some (if o = 'g' then .get k else .delete k)
+      | none => none
+    else none
+  | _ => none
+
+def lookupTok : Lookup.Out → String
+  | .res r => showRes r
+  | .stored n => "ok:" ++ showKey n
+  | .content c => "=" ++ c
+  | .names l => "[" ++ String.intercalate "," (sortStrs (l.map showKey)) ++ "]"
+  | .restarted => "R"
+
+def lookup (ops : List String) : String :=
+  match ops.mapM lookupOp? with
+  | none => "bad-op"
+  | some ops =>
+    let rec go (st : Lookup.St) (ops : List Lookup.Op) (acc : List String) : List String :=
+      match ops with
+      | [] => acc.reverse
+      | op :: r => let (st1, o) := Lookup.step st op; go st1 r (lookupTok o :: acc)
+    String.intercalate " " (go Lookup.init ops [])
+
 def handle (cmd : String) (args : List String) : Option String :=
   match cmd, args with
   | "kv", store :: ops =>
@@ -225,6 +326,8 @@ def handle (cmd : String) (args : List String) : Option String :=
     | "usq" => some (usq ops)
     | "alias" => some (alias ops)
     | "dash" => some (dash ops)
+    | "contact" => some (contact ops)
+    | "lookup" => some (lookup ops)
     | _ => some "bad-op"
   | "kv", [] => some "bad-op"
   | _, _ => none
